@@ -156,6 +156,13 @@ def gate(src):
         # the Master has just been forgotten (e.g. it failed) - or is not known yet while synchronizing
         if master == 'none' or state == 'SYNCHRONIZATION':
             adapter.plant_peer_state_modes(core, ids[0], master_identifier='')
+    # restart_sequence is documented to be refused while start / stop jobs are in progress - on any instance: the
+    # other instance may have published jobs of its own while the local Starter and Stopper are idle
+    peer_jobs = None
+    if method == 'restart_sequence':
+        peer_jobs = src.pick('peer_jobs', [None, 'starting', 'stopping'])
+        if peer_jobs:
+            adapter.plant_peer_state_modes(core, ids[1], **{peer_jobs + '_jobs': True})
     core.rpc_handler.out.clear()
     before = _effects(core)
     fault = None
@@ -189,6 +196,11 @@ def gate(src):
             # documented: BAD_SUPVISORS_STATE when there is no Master instance to perform the request
             src.check('no-master-is-a-documented-fault', fault == BAD_STATE, sig=sig, fault=fault)
             src.check('rejected-request-has-no-effect', before == after, sig=sig)
+    if peer_jobs:
+        src.reach('jobs-elsewhere')
+        src.check('refused-while-jobs-in-progress-elsewhere', fault == BAD_STATE, sig=sig, state=state, fault=fault,
+                  peer=peer_jobs)
+        src.check('refused-request-has-no-effect', before == after, sig=sig, state=state, before=before, after=after)
     if method == 'end_sync' and fault is None:
         # served: the Master that is now known (if any) is a real Supvisors identifier
         src.reach('end-sync-served')
@@ -349,7 +361,7 @@ HARNESSES = [
     Harness('H17h', history_gate, quick={}, thorough={}, reach=('gated', 'allowed', 'other-differs-from-its-master'),
             timeout=(120, 300),
             doc='gate on the Master and on the other instance of a real cluster brought to 8 situations by real histories (incl. an instance that lost its Master / is in ELECTION before it)'),
-    Harness('H17', gate, quick={}, thorough={}, reach=('gated', 'allowed', 'bad-parameter', 'wait'), timeout=(150, 300),
+    Harness('H17', gate, quick={}, thorough={}, reach=('gated', 'allowed', 'bad-parameter', 'wait', 'jobs-elsewhere'), timeout=(150, 300),
             doc='method x state x Master/non-Master/no Master x parameter classes x wait / no wait'),
 ]
 BOUNDS = {'quick': {'methods': len(CALLS), 'states': 9, 'master': ['local', 'peer', 'none'],
